@@ -252,3 +252,18 @@ func VTraceOps() {
 		}
 	}
 }
+
+// VOnInstr wraps every jump table entry so that cb sees each instruction about to be
+// executed (frame.Lasti already points behind it). The returned function restores the table.
+func VOnInstr(cb func(f *py.Frame, op OpCode, arg int32)) (restore func()) {
+	saved := jumpTable
+	for i := range jumpTable {
+		op := OpCode(i)
+		f := saved[i]
+		jumpTable[i] = func(vm *Vm, arg int32) error {
+			cb(vm.frame, op, arg)
+			return f(vm, arg)
+		}
+	}
+	return func() { jumpTable = saved }
+}
